@@ -139,3 +139,33 @@ def update_attack_surface_add_nodes(attacker, current_attack_surface, nodes):
             if is_node_traversable_by_attacker(child, attacker) and child not in attack_surface:
                 attack_surface.append(child)
     return attack_surface
+
+
+# ---- T10  step inheritance fold (C03: '->' replaces, '+>' appends, no reaches leaves untouched;
+#           the ancestors are folded first).  Copies are normalised away (freshness is rule R6).
+class LanguageGraph:
+    def _get_attacks_for_asset_type(self, asset_type):
+        attack_steps = {}
+        asset = next((asset for asset in self._lang_spec['assets'] if asset['name'] == asset_type), None)
+        if asset is None:
+            return attack_steps
+        if asset['superAsset']:
+            attack_steps = self._get_attacks_for_asset_type(asset['superAsset'])
+        for step in asset['attackSteps']:
+            if step['name'] not in attack_steps:
+                attack_steps[step['name']] = step
+            elif not step['reaches']:
+                continue
+            elif step['reaches']['overrides'] == True:
+                attack_steps[step['name']] = step
+            else:
+                if attack_steps[step['name']]['reaches'] is not None and \
+                        'stepExpressions' in attack_steps[step['name']]['reaches']:
+                    attack_steps[step['name']]['reaches']['stepExpressions'].extend(
+                        step['reaches']['stepExpressions'])
+                else:
+                    attack_steps[step['name']]['reaches'] = {
+                        'overrides': False,
+                        'stepExpressions': step['reaches']['stepExpressions']
+                    }
+        return attack_steps
